@@ -515,6 +515,23 @@ extern "C" {
           case 2: {
             // broadcasting: the offsets of one list array imposed on another of the same length (the Python layer
             // has made the lengths equal before it gets here)
+            if (b == 0) {
+              // ... or the array's own list lengths, changed by the deltas in iargs[2..] (all zero: the broadcast that
+              // fits; otherwise one that must be refused before anything is written)
+              ak::Index64 own = helper_compact_offsets64(x, true);
+              ak::Index64 target(own.length());
+              int64_t at = 0;
+              target.setitem_at_nowrap(0, 0);
+              for (int64_t i = 0;  i + 1 < own.length();  i++) {
+                int64_t count = own.getitem_at_nowrap(i + 1) - own.getitem_at_nowrap(i);
+                if (ni > 2) count += (int64_t)iargs[2 + (i % (ni - 2))];
+                if (count < 0) count = 0;
+                at += count;
+                target.setitem_at_nowrap(i + 1, at);
+              }
+              out = helper_broadcast_tooffsets64(x, target);
+              break;
+            }
             ak::ContentPtr y = content(b);
             while (auto* v = dynamic_cast<const ak::VirtualArray*>(y.get())) {
               y = v->array();
